@@ -45,6 +45,23 @@ def run(rep, ctx):
         for cid, d in r['digests'].items():
             if base['digests'].get(cid) != d:
                 diverged.setdefault(cid, []).append(job)
+    # Listed finding C17-dmp-deadline: compute_dmp_diff hands the native diff a wall-clock deadline, so a diff that needs about as
+    # long as the limit comes out differently from run to run.  A divergence is attributed to it only when it disappears with that
+    # one deadline switched off in re-runs of the very same jobs; whatever remains (and everything, if the finding is not listed) is
+    # a violation.
+    deadline_known = [k for k in load_known_findings('C17') if k['id'] == 'C17-dmp-deadline']
+    attributed = {}
+    if diverged and deadline_known:
+        again = sorted({j for w in diverged.values() for j in w})[:4]
+        nd = {'WMD_VERIF_NO_DMP_DEADLINE': '1'}
+        base_nd = run_worker(*jobs[0], extra_env=nd)
+        res_nd = [run_worker(*j, extra_env=nd) for j in again]
+        for cid in list(diverged):
+            if all(r['digests'].get(cid) == base_nd['digests'].get(cid) for j, r in zip(again, res_nd) if j in diverged[cid]) and \
+               any(j in again for j in diverged[cid]):
+                attributed[cid] = diverged.pop(cid)
+        rep.count(('deadline-attributed', len(attributed)), True)
+        rep.extra['cases_attributed_to_the_dmp_deadline'] = sorted(attributed)[:20]
     n = 0
     for cid, where in sorted(diverged.items()):
         n += 1
@@ -102,6 +119,17 @@ def run(rep, ctx):
                                          '(it remains with that call pinned to a fixed LC_CTYPE)' if residual else ''), 'cases': (residual or loc_changed)[:10],
                                          'replay_cmd': 'LC_ALL=C PYTHONHASHSEED=0 PYTHONPATH=/repo /venv/bin/python harness/purity_worker.py natural  (compare digests with a run without LC_ALL)'})
     rep.obligation('exploration c17: the process locale changes no result except through the listed native diff call (%d case(s) changed, all attributed)' % len(loc_changed), ok_loc)
+    for k in deadline_known:   # the listed input: the outcome is decided by the deadline (compare with the deadline switched off)
+        outs = []
+        for extra in ({}, {'WMD_VERIF_NO_DMP_DEADLINE': '1'}):
+            env = dict(os.environ, PYTHONHASHSEED='0', PYTHONPATH=REPO, **extra)
+            o = subprocess.run(['/venv/bin/python', '-W', 'ignore', WORKER, 'deadline', str(k['input']['words'])], env=env, capture_output=True, text=True, timeout=600)
+            outs.append(o.stdout.strip().splitlines()[-1] if o.returncode == 0 and o.stdout.strip() else 'failed: ' + o.stderr[-200:])
+        rep.count(('known', k['id']), True)
+        if outs[0] != outs[1] or attributed:
+            rep.known_finding(k['what'])
+        else:
+            rep.extra.setdefault('known_findings_no_longer_failing', []).append(k['id'])
     for k in known:          # the listed input itself, replayed: reported while it still fails
         inp = k['input']
         args = ['one', inp['differ'], json.dumps(inp['kwargs'])]
